@@ -249,6 +249,13 @@ def shouldSign (now : Nat) (s : Node) (subject : Key) (tree : Tree) (m : Metadat
 /-- the attestation this node makes over metadata `mp` -/
 def ownAtt (me : Key) (mp : Hash) : Att := { mptr := mp, sig := .own me mp, vk := 1 <<< me }
 
+/-- `PseudonymManager.add_attestation`: the attestation is stored only `if attestation.verify(public_key)`
+    (`Gen.addAttestationVerifies` says whether the source still has that test) -/
+def attOk (vk : Nat) (k : Key) : Bool := !Gen.addAttestationVerifies || verifies vk k
+
+/-- `PseudonymManager.add_metadata`: stored only `if metadata.verify(self.public_key)` -/
+def mdOk (vk : Nat) (k : Key) : Bool := !Gen.addMetadataVerifies || verifies vk k
+
 /-- substantiate, part 1: `pseudonym.tree.unserialize_public(serialized_tokens)` -/
 def subTokens (s : Node) (p : Key) (msg : Msg) : Node × Bool :=
   let r := gatherAll p (genesisOf s p) (treeOf s p) msg.tokens
@@ -261,12 +268,12 @@ def subPersist (s s1 : Node) (p : Key) : Node :=
 
 /-- substantiate, part 2: `add_metadata` for every metadata blob -/
 def subMds (s : Node) (p : Key) (msg : Msg) : Node :=
-  { s with mdRows := msg.mds.foldl (fun rows m => if verifies m.vk p then insertMd rows ⟨p, m⟩ else rows) s.mdRows }
+  { s with mdRows := msg.mds.foldl (fun rows m => if mdOk m.vk p then insertMd rows ⟨p, m⟩ else rows) s.mdRows }
 
 /-- substantiate, part 3: `add_attestation(authority, attestation)` for every (authority, attestation) pair -/
 def subAtts (s : Node) (p : Key) (msg : Msg) : Node :=
   { s with attRows := (msg.atts.foldl
-      (fun rows a => if verifies a.2.vk a.1 then insertAtt rows ⟨p, a.1, a.2⟩ else rows) s.attRows) }
+      (fun rows a => if attOk a.2.vk a.1 then insertAtt rows ⟨p, a.1, a.2⟩ else rows) s.attRows) }
 
 /-- IdentityManager.substantiate: (state, correct, aborted) -/
 def substantiate (s : Node) (p : Key) (msg : Msg) : Node × Bool × Bool :=
@@ -277,7 +284,7 @@ def substantiate (s : Node) (p : Key) (msg : Msg) : Node × Bool × Bool :=
   let s1 := subPersist s s1 p
   let s2 := subMds s1 p msg
   if msg.mdAbort then (s2, ok, true) else
-  (subAtts s2 p msg, ok && msg.atts.all (fun a => verifies a.2.vk a.1), msg.attAbort)
+  (subAtts s2 p msg, ok && msg.atts.all (fun a => attOk a.2.vk a.1), msg.attAbort)
 
 /-- create_attestation + add_attestation(own key) + attested_metadata.add -/
 def recordAttest (s : Node) (p : Key) (mp : Hash) : Node :=
@@ -306,9 +313,9 @@ def requiredOf (s : Node) (p : Key) : List Hash := (s.known.filter (fun e => e.2
 /-- content hashes of the subject's tree (`known_attributes`) -/
 def knownAttrs (s : Node) (p : Key) : List Hash := (treeOf s p).elements.map (·.content)
 
-/-- `if correct and any(...)`: the signing loop -/
+/-- `if correct and any(...)`: the signing loop (`Gen.signNeedsCorrect`: the source still has `correct and`) -/
 def signPhase (now : Nat) (s1 : Node) (p : Key) (order : List Hash) (correct : Bool) : Node × List Out × Bool :=
-  if correct && (requiredOf s1 p).any (fun h => (knownAttrs s1 p).contains h) then
+  if (correct || !Gen.signNeedsCorrect) && (requiredOf s1 p).any (fun h => (knownAttrs s1 p).contains h) then
     signLoop now p (treeOf s1 p) s1 (credentials s1 p order)
   else (s1, [], false)
 
@@ -328,7 +335,7 @@ def receivedDisclosure (now : Nat) (s : Node) (p : Key) (msg : Msg) (order : Lis
 /-- on_attest -/
 def onAttest (s : Node) (p : Key) : Option Att → Node
   | none => s
-  | some a => if verifies a.vk p then { s with attRows := insertAtt s.attRows ⟨s.me, p, a⟩ } else s
+  | some a => if attOk a.vk p then { s with attRows := insertAtt s.attRows ⟨s.me, p, a⟩ } else s
 
 def tokenSize : Nat := 64 + 64
 
